@@ -507,4 +507,8 @@ theorem key_inj (atoms : List Atom) (hk : (atoms.map (·.key)).Nodup) (i j : Nat
     simpa [List.getD_eq_getElem?_getD, hi, hj] using e
   exact (hk.getElem_inj_iff).mp e'
 
+theorem set_getD_self {α} (l : List α) (i : Nat) (d : α) (h : i < l.length) : l.set i (l.getD i d) = l := by
+  rw [List.getD_eq_getElem?_getD, List.getElem?_eq_getElem h]
+  exact List.set_getElem_self h
+
 end C15
